@@ -23,6 +23,17 @@
  * unused part of the thread's stack before execute() is called (what an
  * uninitialised local then reads).
  *
+ * Sub-check `interrupted` (schedule class "interrupted waiter"): a victim manager whose child
+ * lives until the harness releases it (`--child waitexit FILE K | waitkill FILE S`), run in
+ * the only thread that takes SIGCHLD, + k in 2..5 helper managers whose children are
+ * released one after the other while the victim is blocked in the waitpid of
+ * ProcessManager::wait: that waitpid is interrupted (EINTR) k times while the victim's child
+ * is still running.  Sequencing is event based: next helper only when the previous helper's
+ * execute() is over, all SIGCHLD handlers have returned (pm.sigchld.exit count) and the
+ * victim is back in wait4 (pm.wait.before_waitpid reached + /proc/self/task/<tid>/syscall).
+ * Managers are built before and destroyed after the threads (the known use-after-free class
+ * is excluded by construction).  Non-trivial: >= 2 interruptions achieved.
+ *
  * Oracle (only what the statement says)
  *   C30.success_iff_zero.<order>   execute() returns normally <=> the child exited with 0
  *   C30.signal_reported.<order>    child killed by a signal => the error says so ("signal")
@@ -46,7 +57,9 @@
 #include <dlfcn.h>
 #include <map>
 #include <pthread.h>
+#include <memory>
 #include <sys/resource.h>
+#include <sys/syscall.h>
 #include <thread>
 #include "TFEL/System/ProcessManager.hxx"
 #include "TFEL/System/SystemError.hxx"
@@ -79,6 +92,26 @@ namespace {
       verif::fdWrite(STDERR_FILENO, "err\n");
       return arg(4);
     }
+    if (k == "waitexit" || k == "waitkill") {
+      // --child waitexit FILE K | waitkill FILE S: live until FILE exists (event
+      // based life time, released by the harness), 120 s at most
+      const char* const f = argc > 3 ? argv[3] : "";
+      for (int i = 0; i != 600000 && ::access(f, F_OK) != 0; ++i) {
+        timespec ts{0, 200000};
+        ::nanosleep(&ts, nullptr);
+      }
+      if (::access(f, F_OK) != 0) return 98;
+      if (k == "waitexit") return arg(4);
+      rlimit rl{0, 0};
+      ::setrlimit(RLIMIT_CORE, &rl);
+      ::signal(arg(4), SIG_DFL);
+      sigset_t s;
+      sigemptyset(&s);
+      sigaddset(&s, arg(4));
+      ::sigprocmask(SIG_UNBLOCK, &s, nullptr);
+      ::kill(::getpid(), arg(4));
+      for (;;) ::pause();
+    }
     if (k == "kill") {  // (not named "signal": the command text is part of the error message)
       rlimit rl{0, 0};
       ::setrlimit(RLIMIT_CORE, &rl);
@@ -99,13 +132,16 @@ namespace {
   enum Policy { ALL, MAIN_ONLY, DEDICATED, WORKERS_ONLY, NOBODY };
 
   struct Cmd {
-    int kind = 0;  // 0 exit, 1 signal, 2 sleepexit, 3 out
+    int kind = 0;  // 0 exit, 1 signal, 2 sleepexit, 3 out, 4 waitexit (value = K), 5 waitkill (value = S)
+    std::string file;  // kinds 4, 5: the file the child waits for
     int value = 0, aux = 0;
     int order = NATURAL;
     int jitter = 0;
     int poison = -1;  // -1: leave the stack alone
     bool toFile = false;
-    bool expectExit() const { return kind != 1; }
+    bool expectExit() const { return kind != 1 && kind != 5; }
+    //! exit code by construction (expectExit() only)
+    int exitCode() const { return (kind == 0 || kind == 4) ? value : aux; }
   };
   struct Script {
     int policy = ALL;
@@ -115,6 +151,15 @@ namespace {
     //! managers are constructed in index order and every sigChildHandler is
     //! held at its entry until one more manager has been destroyed
     bool holdUntilDestroyed = false;
+    /*!
+     * "interrupted waiter" class: cmds[0] is the victim (its child lives until
+     * the harness releases it, its thread is the only one that takes SIGCHLD),
+     * cmds[1..] are helpers whose children are released one after the other
+     * while the victim is blocked in the waitpid of ProcessManager::wait: the
+     * victim's waitpid is interrupted (EINTR) once per helper.  All managers
+     * are built before and destroyed after the threads.
+     */
+    bool victim = false;
     std::vector<Cmd> cmds;
   };
 
@@ -136,6 +181,9 @@ namespace {
     std::string truth;
   };
   thread_local Ctx* tctx = nullptr;
+  thread_local bool isVictimThread = false;
+  std::atomic<bool> victimAtWait{false}, victimDone{false};
+  std::atomic<long> victimTid{0};
   std::atomic<int> holdHandlers{0};
   std::atomic<int> constructed{0}, executed{0}, destroyed{0};
   int nManagers = 0;
@@ -158,7 +206,7 @@ namespace {
   void checkTruth(Ctx& ctx, const siginfo_t& info) {
     ctx.truthChecked = true;
     if (ctx.cmd.expectExit()) {
-      const int k = ctx.cmd.kind == 0 ? ctx.cmd.value : ctx.cmd.aux;
+      const int k = ctx.cmd.exitCode();
       ctx.truthOk = info.si_code == CLD_EXITED && info.si_status == k;
     } else {
       ctx.truthOk = (info.si_code == CLD_KILLED || info.si_code == CLD_DUMPED) && info.si_status == ctx.cmd.value;
@@ -181,6 +229,10 @@ namespace {
     }
     if (std::strcmp(name, "pm.sigchld.exit") == 0) {
       handlerExits.fetch_add(1);
+      return;
+    }
+    if (isVictimThread && std::strcmp(name, "pm.wait.before_waitpid") == 0) {
+      victimAtWait.store(true);
       return;
     }
     Ctx* const ctx = tctx;
@@ -256,6 +308,7 @@ namespace {
     std::string what;
     bool achieved = false, truthChecked = false, truthOk = true;
     int waitErrno = 0;
+    bool victim = false;
     std::string truth;
   };
 
@@ -266,6 +319,10 @@ namespace {
         return s + "exit " + std::to_string(c.value);
       case 1:
         return s + "kill " + std::to_string(c.value);
+      case 4:
+        return s + "waitexit " + c.file + " " + std::to_string(c.value);
+      case 5:
+        return s + "waitkill " + c.file + " " + std::to_string(c.value);
       case 2:
         return s + "sleepexit " + std::to_string(c.value) + " " + std::to_string(c.aux);
       default:
@@ -320,7 +377,10 @@ namespace {
     o.truth = ctx.truth;
   }
 
+  bool victimScript = false;
+
   std::string orderKey(const Cmd& c, const Outcome& o) {
+    if (victimScript) return o.victim ? "interrupted_waiter" : "helper_of_interrupted_waiter";
     // observed class, whatever the order asked for: the waitpid of
     // ProcessManager::wait did not return a status because a SIGCHLD handler
     // (any thread) had reaped the child first
@@ -330,7 +390,14 @@ namespace {
     return orderNames[c.order];
   }
 
+  void verdict(const Script& s, const std::vector<Outcome>& outs, const int fd, const std::string& extra);
+  void runVictimCase(const Script& s, const int fd);
+
   void runCase(const Script& s, const int fd) {
+    if (s.victim) {
+      runVictimCase(s, fd);
+      return;
+    }
     nManagers = static_cast<int>(s.cmds.size());
     holdUntilDestroyedFlag = s.holdUntilDestroyed;
     tfel_verif_point = &c30Hook;
@@ -377,7 +444,11 @@ namespace {
       for (std::size_t i = 0; i != n; ++i) ::unlink((dir + "/out" + std::to_string(i) + ".txt").c_str());
       ::rmdir(dir.c_str());
     }
-    // verdict
+    verdict(s, outs, fd, "");
+  }
+
+  void verdict(const Script& s, const std::vector<Outcome>& outs, const int fd, const std::string& extra) {
+    const auto n = s.cmds.size();
     std::string key, msg, stats;
     int nAch[4] = {0, 0, 0, 0};
     int misValue = 0, misSignal = 0;
@@ -386,7 +457,7 @@ namespace {
       const auto& o = outs[i];
       const auto ok = orderKey(c, o);
       if (o.achieved) ++nAch[c.order];
-      const bool zero = c.expectExit() && (c.kind == 0 ? c.value : c.aux) == 0;
+      const bool zero = c.expectExit() && c.exitCode() == 0;
       const std::string id = "manager " + std::to_string(i) + " (" + commandOf(c).substr(selfExe.size() + 9) + ", order " +
                              ok + "): ";
       if (o.truthChecked && !o.truthOk && key.empty()) {
@@ -403,7 +474,7 @@ namespace {
         msg = id + "child killed by signal " + std::to_string(c.value) + " but the error is: " + o.what;
       }
       if (c.expectExit() && !zero && !o.returned) {
-        const int k = c.kind == 0 ? c.value : c.aux;
+        const int k = c.exitCode();
         if (o.what.find("signal") != std::string::npos) {
           ++misSignal;
         } else if (o.what.find("exited abnormally with value " + std::to_string(k)) == std::string::npos ||
@@ -415,10 +486,126 @@ namespace {
     stats = "stats";
     for (int k = 0; k != 4; ++k) stats += std::string(" ") + orderNames[k] + "=" + std::to_string(nAch[k]);
     stats += " handler_entries=" + std::to_string(handlerEntries.load()) +
-             " misreport_value=" + std::to_string(misValue) + " misreport_exit_as_signal=" + std::to_string(misSignal) + "\n";
+             " misreport_value=" + std::to_string(misValue) + " misreport_exit_as_signal=" + std::to_string(misSignal) + extra + "\n";
     for (auto& ch : msg)
       if (ch == '\n') ch = ' ';
     verif::fdWrite(fd, stats + (key.empty() ? std::string("PASS\n") : "FAIL " + key + " " + msg + "\n"));
+  }
+
+  //! true when thread `tid` of this process is inside the wait4 system call
+  bool inWait4(const long tid) {
+    char path[64], buf[64];
+    std::snprintf(path, sizeof path, "/proc/self/task/%ld/syscall", tid);
+    const int f = ::open(path, O_RDONLY | O_CLOEXEC);
+    if (f == -1) return false;
+    const auto n = ::read(f, buf, sizeof buf - 1);
+    ::close(f);
+    if (n <= 0) return false;
+    buf[n] = 0;
+    return std::strncmp(buf, "61 ", 3) == 0;
+  }
+
+  void runVictimCase(const Script& s0, const int fd) {
+    Script s = s0;
+    victimScript = true;
+    nManagers = static_cast<int>(s.cmds.size());
+    tfel_verif_point = &c30Hook;
+    char tmpl[] = "c30v.XXXXXX";
+    if (::mkdtemp(tmpl) == nullptr) {
+      verif::fdWrite(fd, "SEQUENCING mkdtemp failed\n");
+      return;
+    }
+    const std::string dir = tmpl;
+    const auto n = s.cmds.size();
+    for (std::size_t i = 0; i != n; ++i) s.cmds[i].file = dir + "/go" + std::to_string(i);
+    // nobody but the victim's thread takes SIGCHLD
+    sigset_t sc;
+    sigemptyset(&sc);
+    sigaddset(&sc, SIGCHLD);
+    ::pthread_sigmask(SIG_BLOCK, &sc, nullptr);
+    std::vector<Outcome> outs(n);
+    std::atomic<int> finished{0};
+    std::string problem;
+    long interruptions = 0;
+    {
+      // the managers outlive the threads: the use-after-free class of
+      // C30.*.concurrent_managers_destroyed_after_execute is out of this script
+      std::vector<std::unique_ptr<tfel::system::ProcessManager>> managers;
+      for (std::size_t i = 0; i != n; ++i) managers.push_back(std::make_unique<tfel::system::ProcessManager>());
+      std::vector<std::thread> ths;
+      for (std::size_t i = 0; i != n; ++i) {
+        ths.emplace_back([&, i] {
+          sigset_t s2;
+          sigemptyset(&s2);
+          sigaddset(&s2, SIGCHLD);
+          ::pthread_sigmask(i == 0 ? SIG_UNBLOCK : SIG_BLOCK, &s2, nullptr);
+          if (i == 0) {
+            isVictimThread = true;
+            victimTid.store(::syscall(SYS_gettid));
+          }
+          auto& o = outs[i];
+          o.victim = i == 0;
+          o.achieved = true;
+          if (s.cmds[i].poison >= 0) poisonStack(s.cmds[i].poison);
+          try {
+            managers[i]->execute("", commandOf(s.cmds[i]), "", "/dev/null", {{"C30_ENV", "1"}});
+            o.returned = true;
+          } catch (std::exception& e) {
+            o.what = e.what();
+          }
+          o.waitErrno = lastWaitRet == -1 ? lastWaitErrno : 0;
+          if (i == 0) victimDone.store(true);
+          finished.fetch_add(1);
+        });
+      }
+      // every wait below is event based; the bounds (20 s) only make a case
+      // inconclusive ("SEQUENCING ...")
+      const auto until = [](auto&& cond) {
+        for (int k = 0; k != 100000; ++k) {
+          if (cond()) return true;
+          sleepNs(200000);
+        }
+        return false;
+      };
+      const auto release = [](const std::string& f) {
+        const int h = ::open(f.c_str(), O_CREAT | O_WRONLY | O_CLOEXEC, 0644);
+        if (h != -1) ::close(h);
+      };
+      const auto victimWaiting = [] {
+        return victimDone.load() || (victimAtWait.load() && inWait4(victimTid.load()));
+      };
+      if (!until(victimWaiting)) problem = "the victim never reached waitpid";
+      for (std::size_t i = 1; i != n && problem.empty(); ++i) {
+        // one helper at a time: its child exits, the SIGCHLD goes to the
+        // victim's thread (EINTR), every manager's handler runs there; go on
+        // when the helper's execute() is over, the handlers have returned and
+        // the victim is back in waitpid (or has wrongly left wait())
+        const long exits = handlerExits.load();
+        const int fin = finished.load();
+        release(s.cmds[i].file);
+        if (!until([&] { return finished.load() > fin || victimDone.load(); })) {
+          problem = "helper " + std::to_string(i) + " did not finish";
+          break;
+        }
+        if (!until([&] { return victimDone.load() || handlerExits.load() >= exits + static_cast<long>(n); })) {
+          problem = "no SIGCHLD handler ran for helper " + std::to_string(i);
+          break;
+        }
+        if (!victimDone.load()) ++interruptions;
+        if (!until(victimWaiting)) problem = "the victim did not go back to waitpid";
+      }
+      for (std::size_t i = 0; i != n; ++i) release(s.cmds[i].file);
+      for (auto& t : ths) t.join();
+      verif::fdWrite(fd, "joined\n");
+    }
+    tfel_verif_point = nullptr;
+    for (std::size_t i = 0; i != n; ++i) ::unlink(s.cmds[i].file.c_str());
+    ::rmdir(dir.c_str());
+    if (!problem.empty()) {
+      verif::fdWrite(fd, "SEQUENCING " + problem + "\n");
+      return;
+    }
+    verdict(s, outs, fd, " interruptions=" + std::to_string(interruptions));
   }
 
   std::map<std::string, int> failuresSeen, shrinkExecutions;
@@ -466,6 +653,10 @@ namespace {
       const auto sp = line.find(' ');
       c.check(false, line.substr(0, sp), sp == std::string::npos ? "" : line.substr(sp + 1));
     }
+    if (o.text.find("\nSEQUENCING ") != std::string::npos || o.text.find("SEQUENCING ") == 0) {
+      c.tag("sequencing_not_achieved_inconclusive");
+      c.discard();
+    }
     c.check(o.code == 0 && o.text.find("\nPASS\n") != std::string::npos, "C30.crash" + cls,
             "process exited with code " + std::to_string(o.code) + " without verdict; output: " + tail());
     const auto stat = [&o](const std::string& k) {
@@ -473,7 +664,13 @@ namespace {
       return p == std::string::npos ? 0L : std::atol(o.text.c_str() + p + k.size() + 2);
     };
     const long hf = stat("handler_first"), wf = stat("waiter_first");
-    c.nontrivial(hf + wf >= 1);
+    if (s.victim) {
+      // the victim's waitpid was interrupted at least twice while its child ran
+      c.nontrivial(stat("interruptions") >= 2);
+      c.tag("interruptions." + std::to_string(stat("interruptions")));
+    } else {
+      c.nontrivial(hf + wf >= 1);
+    }
     if (hf >= 1) c.tag("achieved.handler_first");
     if (wf >= 1) c.tag("achieved.waiter_first");
     if (stat("natural") >= 1) c.tag("achieved.natural");
@@ -552,6 +749,37 @@ VERIF_SUB(orders) {
   c.tag("policy." + std::to_string(s.policy));
   c.tag(s.barrier ? "lifetime.barrier" : "lifetime.destroyed_after_execute");
   if (s.holdUntilDestroyed) c.tag("handlers_held_until_a_manager_is_destroyed");
+  execute(c, s);
+}
+
+/*!
+ * the waiter is interrupted k >= 2 times by the SIGCHLD of other managers'
+ * children while its own child is still running (schedule class of the seeded
+ * change C30-1: EINTR retried only once)
+ */
+VERIF_SUB_W(interrupted, 0.35) {
+  Script s;
+  s.victim = true;
+  s.barrier = true;  // managers are destroyed after the threads: no class suffix
+  s.policy = WORKERS_ONLY;
+  const int k = static_cast<int>(c.integer(2, 5, "helpers"));
+  Cmd v;
+  if (c.chance(1, 4, "victim_killed")) {
+    v.kind = 5;
+    v.value = signalsTable[c.pick(sizeof(signalsTable) / sizeof(int), "sig")];
+  } else {
+    v.kind = 4;
+    v.value = c.boolean("zero") ? 0 : static_cast<int>(c.integer(1, 255, "code"));
+  }
+  v.poison = poisonTable[c.pick(sizeof(poisonTable) / sizeof(int), "poison")];
+  s.cmds.push_back(v);
+  for (int i = 0; i != k; ++i) {
+    Cmd h;
+    h.kind = 4;
+    h.value = c.boolean("zero") ? 0 : static_cast<int>(c.integer(1, 255, "code"));
+    s.cmds.push_back(h);
+  }
+  c.tag("helpers." + std::to_string(k));
   execute(c, s);
 }
 
